@@ -1,6 +1,7 @@
 package sim
 
 import (
+	"sync/atomic"
 	"context"
 	"encoding/json"
 	"fmt"
@@ -674,16 +675,27 @@ func (cl *Cluster) WaitQuiet(patience time.Duration) bool {
 	stableSince := time.Now()
 	for time.Now().Before(deadline) {
 		seq := cl.B.Seq()
-		if seq != last || cl.B.Inflight() != 0 || cl.Locks.HeldCount() != 0 {
+		if seq != last || cl.B.Inflight() != 0 || cl.Locks.HeldCount() != 0 || cl.Locks.WaitingCount(cl.B.Frozen) != 0 {
 			last = seq
 			stableSince = time.Now()
 		} else if time.Since(stableSince) >= QuietWindow {
 			return true
 		}
+		// Work that core hands to its worker pool after an operation returned (the remap) shows up at the boundary
+		// only once its goroutine has been given a CPU. The window therefore only counts while this process is
+		// demonstrably being scheduled: a 1 ms sleep that overshoots by more than 4 ms (a starved machine) restarts it.
+		t0 := time.Now()
 		time.Sleep(time.Millisecond)
+		if time.Since(t0) > 5*time.Millisecond {
+			stableSince = time.Now()
+			atomic.AddInt64(&QuietWindowRestarts, 1)
+		}
 	}
 	return false
 }
+
+// QuietWindowRestarts counts how often a quiet window was restarted because the process was not scheduled promptly.
+var QuietWindowRestarts int64
 
 // QuietWindow is how long the event log must stay unchanged (with nothing in flight and no lock held)
 // before the cluster counts as quiescent.
